@@ -12,7 +12,7 @@ use verif_rt::Ev;
 const PLUG: u32 = 1;
 
 fn dispatch_chan(r: &ExecResult) -> Option<u32> {
-    r.chans.iter().position(|c| elem_kind(c.elem) == "dispatch").map(|i| i as u32)
+    dispatch_chans(r).first().copied()
 }
 
 /// common to both variants: capacity never exceeded, nothing lost
